@@ -33,11 +33,16 @@ for _v in SUPPORTED:
     PLANS.append(('query', _v, None))
     PLANS.append(('attrs', _v, None))
     PLANS.append(('fields', _v, None))
-COUNT = {'quick': len(PLANS), 'thorough': len(PLANS) * 6}
+# ... and a sampled pass: sessions speaking different versions served
+# concurrently by one engine (threaded world, seeded schedules); every
+# exchange is judged by the same gates under the version of ITS request
+NCONC = {'quick': 80, 'thorough': 1500}
+COUNT = {'quick': len(PLANS) + NCONC['quick'],
+         'thorough': len(PLANS) * 6 + NCONC['thorough']}
 BUDGET_S = {'quick': 60, 'thorough': 600}
 DETERMINISM = {'quick': 12, 'thorough': 40}
 CHUNK = 4
-EXHAUSTIVE = {'quick': True, 'thorough': True}
+EXHAUSTIVE = {'quick': False, 'thorough': False}
 RULE = ('complete sweep of %d matrix plans: (every supported and 7 '
         'unsupported versions) x (7 stored object types) x all 21 served '
         'operations with a valid request; per supported version all '
@@ -50,15 +55,23 @@ RULE = ('complete sweep of %d matrix plans: (every supported and 7 '
         'carry optional fields. '
         'Every response frame is scanned for tags outside the client\'s '
         'version. Thorough repeats the sweep with other seeds for the '
-        'values. Non-trivial: the request used an operation / attribute / '
+        'values. The matrix is enumerated completely in every run; on top '
+        'of it a SAMPLED pass (80 / 1500 plans) runs 2-3 sessions that '
+        'speak different versions concurrently on one engine under seeded '
+        'schedules (pre-emption points, lock-release yields), each exchange '
+        'judged by the same gates under the version of its own request. '
+        'Non-trivial: the request used an operation / attribute / '
         'version on the other side of a gate. Distinct = plan number.'
         % len(PLANS))
-PROBES = ['whole_request_rejections', 'named_attribute_requests', 'gated_operation_refused', 'unsupported_version_refused',
+PROBES = ['concurrent_plans', 'concurrent_exchanges_judged',
+          'concurrent_gated_refusals', 'whole_request_rejections', 'named_attribute_requests', 'gated_operation_refused', 'unsupported_version_refused',
           'discover_sublist', 'query_then_execute', 'tag_scan_frames',
           'gated_attribute_refused', 'response_version_echo',
           'aead_encrypt_answered']
 REAL_VS_STUB = {
-    'real': ['KmipEngine version handling (_set_protocol_version, '
+    'real': ['KmipSession.run threads of clients speaking different '
+             'versions on one KmipEngine under the deterministic scheduler '
+             '(concurrent pass)', 'KmipEngine version handling (_set_protocol_version, '
              '_kmip_version_supported, Query, DiscoverVersions)',
              'AttributePolicy version rules', 'KmipSession version echo',
              'TTLV encoder version branches'],
@@ -103,7 +116,160 @@ def tag_since(tag):
     return (1, 0)
 
 
+def gen_concurrent(r, index):
+    from sim import conc
+    old = r.choice([(1, 0), (1, 0), (1, 1), (1, 2)])
+    new = r.choice([(1, 4), (2, 0), (1, 4), (1, 3)])
+    vers = [old, new]
+    if r.random() < 0.4:
+        vers.append(r.choice(SUPPORTED))
+    r.shuffle(vers)
+    actors = [{'cn': 'user%d' % i} for i in range(len(vers))]
+    ctx = gen.Ctx(r, nactors=len(vers))
+    scripts = []
+    for ai, ver in enumerate(vers):
+        first = conc.simple_keypair(ctx) if r.random() < 0.3 else \
+            conc.simple_create(ctx)
+        lab = '@' + first['label']
+        items = [first]
+        if r.random() < 0.5:
+            # gated follow-ups inside the batch that holds the slow item
+            items.append({'op': r.choice(['GetAttributeList',
+                                          'GetAttributes'])})
+            if r.random() < 0.5:
+                items.append({'op': 'DiscoverVersions', 'versions': []})
+        sc = [{'ver': list(ver), 'items': items, 'cont': 1}]
+        for _ in range(r.randint(2, 5)):
+            k = r.choice(['list', 'attrs', 'named', 'discover', 'query',
+                          'encrypt', 'activate', 'create', 'set'])
+            if k == 'list':
+                op = {'op': 'GetAttributeList', 'uid': lab}
+            elif k == 'attrs':
+                op = {'op': 'GetAttributes', 'uid': lab}
+            elif k == 'named':
+                op = {'op': 'GetAttributes', 'uid': lab,
+                      'names': ['Sensitive', 'State',
+                                'Operation Policy Name']}
+            elif k == 'discover':
+                op = {'op': 'DiscoverVersions', 'versions': []}
+            elif k == 'query':
+                op = {'op': 'Query', 'funcs': [1, 2, 3]}
+            elif k == 'encrypt':
+                op = {'op': 'Encrypt', 'uid': lab, 'data': '00' * 16,
+                      'cp': {'alg': 3, 'mode': 1, 'padding': 3},
+                      'iv': '11' * 16}
+            elif k == 'activate':
+                op = {'op': 'Activate', 'uid': lab}
+            elif k == 'set':
+                op = {'op': 'SetAttribute', 'uid': lab,
+                      'attr': A_('Sensitive', True)}
+            else:
+                op = conc.simple_create(ctx)
+                op['attrs'].append(A_('Sensitive', True))
+            sc.append({'ver': list(ver), 'items': [op]})
+        scripts.append(sc)
+    return conc.plan_of(r, index, actors, scripts)
+
+
+def A_(n, v):
+    return gen.A(n, v)
+
+
+def judge_exchange(ver, op, it, raw, flag, probes):
+    """The version gates on one request item and its answer."""
+    name = op['op']
+    since = OP_SINCE.get(name)
+    if since and ver < since:
+        probes['concurrent_gated_refusals'] += 1
+        if it['status'] == 0:
+            flag('operation-newer-than-version-accepted', why=name,
+                 version=ver, how='concurrent')
+    if it['status'] != 0:
+        return
+    if name in ('GetAttributes', 'GetAttributeList'):
+        names = [a[0] for a in it['payload'].get('attrs') or []] + \
+            list(it['payload'].get('names') or [])
+        for n in names:
+            if n in ATTR_SINCE and ver < ATTR_SINCE[n]:
+                flag('attribute-newer-than-version-reported', why=n,
+                     version=ver, how='concurrent')
+            if n in ATTR_GONE and ver >= ATTR_GONE[n]:
+                flag('attribute-removed-in-version-reported', why=n,
+                     version=ver, how='concurrent')
+    if name == 'Create' and any(
+            a['n'] in ATTR_SINCE and ver < ATTR_SINCE[a['n']]
+            for a in op.get('attrs', [])):
+        flag('attribute-outside-version-accepted', why='Create',
+             version=ver, how='concurrent')
+    if name == 'DiscoverVersions':
+        got = [tuple(v) for v in it['payload'].get('versions', [])]
+        if got != sorted(SUPPORTED, reverse=True):
+            flag('discover-versions-wrong-set', why='concurrent', got=got)
+    if name == 'Query':
+        for num in it['payload'].get('operations', []):
+            nm = t.OPERATION.get(num)
+            if nm in OP_SINCE and ver < OP_SINCE[nm]:
+                flag('query-advertises-operation-newer-than-version',
+                     why=nm, version=ver, how='concurrent')
+
+
+def execute_concurrent(plan):
+    from sim.props import c10
+    probes = dict((p, 0) for p in PROBES)
+    mine = []
+
+    def flag(oracle, **det):
+        mine.append({'sig': {'oracle': oracle, 'why': det.get('why')},
+                     'detail': det})
+
+    def judge(pl, complete, own, resolve):
+        for h in complete:
+            resp = h.get('resp')
+            if resp is None or h.get('sent') is None:
+                continue
+            ver = tuple(h['req']['ver'])
+            probes['concurrent_exchanges_judged'] += 1
+            it0 = resp.items[0] if resp.items else None
+            undecodable = it0 is not None and it0['op'] is None and \
+                it0['reason_name'] == 'InvalidMessage' and \
+                tuple(resp.version or ()) == (1, 0)
+            if resp.version is not None and tuple(resp.version) != ver \
+                    and not undecodable:
+                flag('response-in-other-version', why='concurrent',
+                     version=ver, got=resp.version)
+            scan_tags(h['sent'], ver, flag, probes,
+                      'concurrent:' + '+'.join(
+                          o['op'] for o in h['req']['items']))
+            for op, it in zip(h['req']['items'], resp.items):
+                judge_exchange(ver, op, it, h['sent'], flag, probes)
+    res = c10.execute(plan, judge=judge, linearize=False)
+    probes['concurrent_plans'] = 1
+    res['violations'] = mine
+    res['probes'] = probes
+    res['key'] = 'concurrent/' + res['key']
+    res['nontrivial'] = bool(res.get('faults', {}).get('lock_contention'))
+    res['sample'] = {'kind': 'concurrent',
+                     'versions': [sc[0]['ver'] for sc in plan['scripts']],
+                     'clients': [[[o['op'] for o in rq['items']]
+                                  for rq in sc] for sc in plan['scripts']],
+                     'preempts': plan['preempts']}
+    return res
+
+
+SHRINK_LISTS = ['preempts', 'tiebreaks']
+
+
+def simplify(plan):
+    if plan.get('kind') == 'concurrent':
+        from sim.props import c10
+        for c in c10.simplify(plan):
+            yield c
+
+
 def generate(rng, tier, index):
+    nm = len(PLANS) * (6 if tier == 'thorough' else 1)
+    if index >= nm:
+        return gen_concurrent(rng, index - nm)
     kind, ver, ot = PLANS[index % len(PLANS)]
     return {'kind': kind, 'ver': list(ver), 'otype': ot,
             'seed': rng.randrange(1 << 30), 'rep': index // len(PLANS)}
@@ -142,6 +308,8 @@ def scan_tags(raw, ver, flag, probes, what):
 
 def execute(plan):
     import random
+    if plan.get('kind') == 'concurrent':
+        return execute_concurrent(plan)
     r = random.Random(plan['seed'])
     probes = dict((p, 0) for p in PROBES)
     viol = []
